@@ -11,10 +11,14 @@ deep copy held in a SimpleNamespace.  Monitors:
                   and the DB-API recorder saw no INSERT/UPDATE/DELETE for it; a bystander object is never touched
 
 Known-finding discipline: a persistence mismatch is re-judged with a small *deviation model* of which mutations Pony
-does not notice (per attribute `dirty` bit).  It is classified only if (a) the raw DB value equals the deviation
-model's prediction exactly, (b) the last unnoticed mutation has exactly the listed shape and (c) re-running the very
-same case with that shape rewritten (alias `x op= v` -> parent form; non-list iterable argument -> list) makes the
-mismatch disappear.  Everything else is a VIOLATION.
+does not notice (per attribute `dirty` bit: alias-form `x op= v`, or a change made through a container that Pony
+left unwrapped).  It is classified only if (a) the raw DB value equals the deviation model's prediction exactly for
+every affected attribute, (b) an alias-shaped last unnoticed mutation is explained only by the alias rule, and (c)
+re-running the very same case with the smallest set of listed shapes rewritten into their equivalent tracked spelling
+(alias `x op= v` -> parent form `p.a[k] op= v`; tuple/iterator argument -> list; top-level `p.a += v` / `p.a |= v`
+-> `p.a.extend(v)` / `p.a.update(v)`) makes the mismatch at that commit point disappear.  Everything else is a
+VIOLATION.  If Pony gains __iadd__/__imul__/__ior__ and wraps iterable arguments the check is silent (verified on a
+scratch copy).
 """
 import copy, itertools, json, operator, sqlite3, types
 
@@ -42,6 +46,10 @@ META = {
         'list.sort() calls that would leave a partially reordered list after raising are not generated',
         'equality is Python == (True == 1, 1 == 1.0); type-only differences are counted, not flagged',
         'an alias is taken from the attribute right before it is used; stale aliases are out of scope',
+        'documents are trees: `*= n` with n >= 2 is not generated on lists that hold containers (it would create '
+        'shared sub-objects, which JSON cannot represent) and arguments never share sub-objects',
+        'a TypeError from array item validation (also for slice assignment on arrays, which Pony rejects) is loud: '
+        'the value must then be unchanged; it is counted, not flagged',
     ],
     'shims': [],
     'exhaustive_tiers': [],
@@ -1010,12 +1018,12 @@ def run(ctx):
             n += 1
             ctx.count('matrix_cases')
         # 2. random multi-session histories
-        total = 12000 if ctx.tier == 'quick' else 40000
+        total = 12000 if ctx.tier == 'quick' else 30000
         for i in range(total):
             run_one(env, ctx, rng=rng, sample=(i % 401 == 0))
             ctx.count('random_cases')
         # 3. read-only histories (M4 is the deciding monitor for the second sentence of the property)
-        total_ro = 2000 if ctx.tier == 'quick' else 5000
+        total_ro = 2000 if ctx.tier == 'quick' else 4000
         for i in range(total_ro):
             plan = [{'readonly': True, 'n': rng.choice((2, 4, 8, 12))} for _ in range(rng.choice((1, 2)))]
             run_one(env, ctx, rng=rng, plan=plan, start='loaded', sample=(i % 251 == 0))
@@ -1023,17 +1031,18 @@ def run(ctx):
     finally:
         env.close()
     ctx.extra['executed_on'] = ['sqlite']
-    q = ctx.tier == 'quick'
-    ctx.floor('monitor.commit_points', 10000 if q else 50000)
-    ctx.floor('outcome.mut_ok', 12000 if q else 60000)
-    ctx.floor('monitor.readonly_sessions', 2000 if q else 10000)
-    ctx.floor('monitor.reads', 12000 if q else 60000)
-    ctx.floor('monitor.fresh_session_reads', 10000 if q else 50000)
-    ctx.floor('mut_form.alias', 300 if q else 1500)
-    ctx.floor('mut_form.parent', 600 if q else 3000)
-    ctx.floor('mut_depth_ge2', 2000 if q else 10000)
-    ctx.floor('mut_on_array', 3000 if q else 15000)
-    ctx.floor('matrix_cases', 500)
+    # floors are per process (each shard of the thorough tier evaluates them on its own counters)
+    k = 1 if ctx.tier == 'quick' else 2
+    ctx.floor('monitor.commit_points', 10000 * k)
+    ctx.floor('outcome.mut_ok', 12000 * k)
+    ctx.floor('monitor.readonly_sessions', 2000 * k)
+    ctx.floor('monitor.reads', 12000 * k)
+    ctx.floor('monitor.fresh_session_reads', 10000 * k)
+    ctx.floor('mut_form.alias', 300 * k)
+    ctx.floor('mut_form.parent', 600 * k)
+    ctx.floor('mut_depth_ge2', 2000 * k)
+    ctx.floor('mut_on_array', 3000 * k)
+    ctx.floor('matrix_cases', 500 // ctx.nshards)
 
 
 def replay(ctx, witness):
